@@ -384,7 +384,8 @@ def generate(seed: int, mode: str, tier: str = "quick") -> dict:
                 emit(w, "CRASH_RESTART", cfg=_env_cfg(r, False))
             elif r.random() < 0.4:
                 perturb(w)
-            emit(w, "LOAD", doc=doc, m=1, form="json")
+            # a third of the documents come back from a store that normalises JSON (member order, whitespace)
+            emit(w, "LOAD", doc=doc, m=1, form="json_sorted" if r.random() < 0.34 else "json")
             rr = r.choice(rep)
             emit(w, "MAKE_DATA", d=3, recipe=rr)
             emit(w, "PREDICT", m=1, d=3, ignore=True if mode != "C04" else r.random() < 0.5)
